@@ -1,4 +1,6 @@
 import DuneVerif.Proofs.C13Add
+import DuneVerif.Proofs.C13Wire
+import DuneVerif.Gen.C13
 /-!
 C13 — IndicesSyncer completes index sets and remote index lists to mutual consistency.
 
@@ -243,7 +245,9 @@ theorem history_invariant (D : Decomp) : ∀ (steps : List Step) (w : World), Pa
 of the consistent state of `D` (same (global, attribute) pairs, same remote index lists; local numbers and sequence
 numbers arbitrary — e.g. the result of an earlier delete-and-sync round).  Delete any copies; if every deleted copy is
 still listed by another process, the sync gives a state of that shape again, and the index set of every rank is the
-one before the deletion with exactly the deleted pairs renumbered by `num` (kept pairs keep their local number). -/
+one before the deletion with exactly the deleted pairs renumbered by `num` (kept pairs keep their local number).
+The consistent state itself has that shape (`Shape.refl`), and the conclusion is the hypothesis again: the theorem
+applies to the result of every further delete-and-sync round. -/
 theorem restore_after_delete_any (num : Int → Nat) (D : Decomp) (hD : DecompWF D) (w : World)
     (hw : Shape w (consistent D)) (del : Nat → Int → Bool)
     (hlisted : ∀ p g, del p g = true → (D.attrOf p g).isSome = true →
@@ -338,10 +342,6 @@ theorem restore_after_delete_any (num : Int → Nat) (D : Decomp) (hD : DecompWF
             simp only at hg ha hloc
             simp [hg, ha, hloc]
           rw [← this]; exact he
-
-/-- ... and the consistent state itself has that shape, so `restore_after_delete_any` applies to it and then, by its
-own conclusion, to the result of every further delete-and-sync round. -/
-theorem consistent_shape (D : Decomp) : Shape (consistent D) (consistent D) := Shape.refl _
 
 /-- A numberer object without state behaves as the function it computes: the model with the numberer state threaded
 through the receives coincides with `sync` (so the theorems above speak about it). -/
@@ -443,6 +443,24 @@ example : ∃ s', (sync exNum exW)[2]? = some s' ∧
 example : ∃ s2, exW[2]? = some s2 ∧ s2.idx.map (fun e => (e.g, e.attr)) = [(6, 1)] ∧
     s2.remote = [(0, []), (1, [⟨6, 1, 0⟩])] := ⟨_, rfl, by decide⟩
 
+/-! ### the bytes: statements about the field layouts regenerated from the source (Gen/C13.lean, tr_c13.py) -/
+
+/-- The receiver reads exactly what the sender wrote: `recvAndUnpack` unpacks, per message, per published index and
+per (process, attribute) pair, fields of the same types in the same order as `packAndSend` packs them - so a message
+is decoded as the item list the protocol model lets it be. -/
+theorem wire_unpack_matches_pack : Gen.unpackLayout = Gen.packLayout := by decide
+
+/-- The send buffer never overflows: for every number of published indices and pairs and whatever the packed size of
+an int, a char and a global index is, `calculateMessageSizes` reserves at least the bytes `packAndSend` writes. -/
+theorem wire_buffer_sufficient (sz : WireTy → Nat) (publish pairs : Nat) :
+    Gen.packLayout.bytes sz publish pairs ≤ Gen.sizeLayout.bytes sz publish pairs :=
+  bytes_le_of_covers sz Gen.packLayout Gen.sizeLayout (by decide) (by decide) (by decide) publish pairs
+
+/-- non-vacuity: the layouts are not empty - a message carries a count, per index a global index, the sender's
+attribute and a pair count, per pair a process and an attribute -/
+example : Gen.packLayout.header.length = 1 ∧ Gen.packLayout.perIndex.length = 3 ∧ Gen.packLayout.perPair.length = 2 ∧
+    Gen.packLayout.perIndex.count .global = 1 := by decide
+
 /-! ### non-vacuity of the round-two theorems -/
 
 /-- hypotheses of `receives_commute`: rank 2's state and two true items from different sources -/
@@ -489,7 +507,7 @@ example : PartialView exD' (runSteps exSteps (consistent exD)) ∧ NbSym (runSte
 /-- hypotheses of `restore_after_delete_any`, second round: the state after one delete-and-sync round (restored pairs
 carry the numbers 1003, 1004) is deleted from again and synced with another numbering -/
 theorem exRound1 : Shape (sync exNum exW) (consistent exD) :=
-  (restore_after_delete_any exNum exD exWF (consistent exD) (consistent_shape exD) exDel exListed).1
+  (restore_after_delete_any exNum exD exWF (consistent exD) (Shape.refl _) exDel exListed).1
 
 example : ∃ s2, (sync exNum exW)[2]? = some s2 ∧ s2.idx = [⟨3, 1, 1003⟩, ⟨4, 2, 1004⟩, ⟨6, 1, 2⟩] := ⟨_, rfl, by decide⟩
 
